@@ -52,6 +52,8 @@ def probe_alpha(inp, tinp, zinp, lat, lon, p=1, q=None):
 
 def probe_beta(inp, tinp, r=0):
     LOG.append(("beta", dict(inp=inp, tinp=tinp, r=r)))
+    if r == "boom":
+        raise ValueError("probe that rejects this parameter")
     return _flags_like("beta", inp)
 
 
@@ -86,6 +88,10 @@ SHAPES = {
     "faults-first": [("none", {"ghost_stream": [("probe_beta", {})], "v": [("probe_alpha", {"p": 3})]}), ("both", {"v": [("probe_boom", {}), ("probe_beta", {"r": 4})]})],
     # an unknown test name listed before healthy tests of the same module and stream, and in the middle
     "faults-name-first": [("none", {"v": [("no_such_test", {}), ("probe_alpha", {"p": 3}), ("no_such_test_2", {}), ("probe_beta", {})]})],
+    # the SAME test configured twice for one stream in two contexts with the same (absent) window - once healthy,
+    # once with a parameter it rejects at run time - in both orders
+    "dup-then-fault": [("none", {"v": [("probe_beta", {"r": 1}), ("probe_alpha", {"p": 2})]}), ("none", {"v": [("probe_beta", {"r": "boom"})]})],
+    "dup-fault-first": [("both", {"v": [("probe_beta", {"r": "boom"})]}), ("both", {"v": [("probe_alpha", {"p": 2}), ("probe_beta", {"r": 1})]})],
 }
 
 
@@ -395,7 +401,7 @@ class StreamRun(Case):
                 oka = oka and as_list(kw.get(an)) == [cols[an][i] for i in rows]
             for pn, pv in params.items():
                 oka = oka and kw.get(pn) == pv
-            if short == "boom":
+            if short == "boom" or params.get("r") == "boom":
                 okf = okf and len(cr.results) == 0
                 continue
             okc = okc and len(cr.results) == 1
@@ -455,7 +461,7 @@ class StreamRun(Case):
             # configured parameters reach the probe, defaults otherwise
             for pn, pv in params.items():
                 oka.append(kw.get(pn) == pv)
-            if short == "boom":
+            if short == "boom" or params.get("r") == "boom":
                 okf.append(len(cr.results) == 0)
                 continue
             okc.append(len(cr.results) == 1)
@@ -640,12 +646,43 @@ class FrontEnds(Case):
         z = ([1.0 + 2.5 * i for i in range(n)], [2.0 + 3.0 * i for i in range(n)], [5.0 + 11.0 * i * (-1) ** i for i in range(n)])
         conf = {"streams": {"v": {"qartod": {"gross_range_test": {"fail_span": [0, 5]}, "rate_of_change_test": {"threshold": 1.0}, "density_inversion_test": {"suspect_threshold": 0.5, "fail_threshold": -1.0}, "location_test": {"bbox": [-10, -10, 40, 14], "range_max": 400000}}}}}
         win = {}
+        if history == "local-tz":
+            # the window bounds as naive python datetimes (what an offset-less YAML timestamp loads as), in a process
+            # whose local time zone is not UTC: naive stamps are compared with the naive time axis as they are
+            import datetime as _dt
+            import os as _os
+            import time as _time
+
+            mkb = lambda s_: _dt.datetime(1970, 1, 1) + _dt.timedelta(seconds=s_)  # noqa: E731
+            old_tz = _os.environ.get("TZ")
+            _os.environ["TZ"] = "EST5EDT"
+            _time.tzset()
+        else:
+            mkb = lambda s_: pd.Timestamp(s_, unit="s")  # noqa: E731
         if window[0] is not None:
-            win["starting"] = pd.Timestamp(window[0], unit="s")
+            win["starting"] = mkb(window[0])
         if window[1] is not None:
-            win["ending"] = pd.Timestamp(window[1], unit="s")
+            win["ending"] = mkb(window[1])
         if win:
             conf["window"] = win
+        try:
+            return self._one(front, vals, times, window, history, conf, win, z, cfgm, stm, rsm)
+        finally:
+            if history == "local-tz":
+                if old_tz is None:
+                    _os.environ.pop("TZ", None)
+                else:
+                    _os.environ["TZ"] = old_tz
+                _time.tzset()
+
+    def _one(self, front, vals, times, window, history, conf, win, z, cfgm, stm, rsm):
+        import warnings
+
+        import numpy as np
+        import pandas as pd
+        import xarray as xr
+
+        n = len(vals)
         t = pd.to_datetime(np.array(times, dtype="int64"), unit="s")
         df = pd.DataFrame({"time": t, "v": np.array(vals, dtype=float), "z": z[0], "lat": z[1], "lon": z[2]})
         with warnings.catch_warnings():
@@ -706,6 +743,10 @@ class FrontEnds(Case):
                 for w in windows:
                     region = front if front != "xarray" else "xarray:%s" % ("both" if w[0] is not None and w[1] is not None else ("none" if w == (None, None) else "one-bound"))
                     yield ("%s|n=%d|%s" % (front, len(vals), w), region, {"front": front, "vals": vals, "times": times, "window": list(w)}, (lambda f=front, v=vals, t=times, w=w: self.one(f, v, t, w)))
+        for front in ("numpy", "pandas", "netcdf"):
+            vals, times = tables[0]
+            for w in ((10, 30), (10, None), (None, 20)):
+                yield ("%s|local-tz|%s" % (front, w), front, {"front": front, "vals": vals, "times": times, "window": list(w), "history": "local-tz"}, (lambda f=front, v=vals, t=times, w=w: self.one(f, v, t, w, "local-tz")))
         for front in ("numpy", "pandas", "netcdf"):
             vals, times = tables[0]
             for w in ((None, None), (10, 30)):
